@@ -150,17 +150,23 @@ func (d Diff) RenderMerge() (string, error) {
 		// A noop JSON Merge Patch should be an empty object
 		return "{}", nil
 	}
-	for _, e := range d {
+	nulled := make(Diff, len(d))
+	for j, e := range d {
 		if len(e.Path) == 0 || !(jsonArray{jsonString(MERGE.string())}).Equals(e.Path[0]) {
 			return "", fmt.Errorf("diff must be composed entirely of paths with merge metadata to be rendered as a merge patch")
 		}
-		for i := range e.NewValues {
-			if isVoid(e.NewValues[i]) {
-				e.NewValues[i] = jsonNull{}
+		// Work on a copy: the new values belong to the caller's diff.
+		newValues := make([]JsonNode, len(e.NewValues))
+		copy(newValues, e.NewValues)
+		for i := range newValues {
+			if isVoid(newValues[i]) {
+				newValues[i] = jsonNull{}
 			}
 		}
+		e.NewValues = newValues
+		nulled[j] = e
 	}
-	mergePatch, err := voidNode{}.Patch(d)
+	mergePatch, err := voidNode{}.Patch(nulled)
 	if err != nil {
 		return "", err
 	}
